@@ -25,7 +25,7 @@ from sa.loader import AnalysisError, Repo  # noqa: E402
 from sa.report import Context  # noqa: E402
 from sa.selftest import _copy_tree  # noqa: E402
 
-PROPS = "C01 C02 C03 C04 C05 C06 C07 C08 C09 C10 C11 C13 C14 C15 C16 C17 C18 C19 C20".split()
+PROPS = "C01 C02 C03 C04 C05 C06 C07 C08 C09 C10 C11 C12 C13 C14 C15 C16 C17 C18 C19 C20".split()
 
 
 from sa.twin import Renamer, rewrite_tree  # noqa: E402
